@@ -177,9 +177,23 @@ def _harness_dir(tag):
 def build(configs=CONFIGS_QUICK, docs=None, release=False):
     gb = GenBuild()
     gb.configs = tuple(configs)
+    tag = repo_tag()
+    default_corpus = docs is None
     docs = docs if docs is not None else gengen.corpus()
     gb.docs = docs
-    tag = repo_tag()
+    if not (default_corpus and tuple(configs) == tuple(CONFIGS_QUICK)):
+        # a different corpus / configuration set gets its own output and target directory, so that a thorough run and
+        # a quick run (or two seeds) going on at the same time do not replace each other's schema and driver
+        import hashlib
+        h = hashlib.sha1(repr(tuple(configs)).encode())
+        for d in docs:
+            h.update(d.name.encode()); h.update(gengen.doc_idl(d).encode())
+        tag += '_corp' + h.hexdigest()[:8]
+        olds = sorted((x for x in os.listdir(core.CACHE) if x.startswith('gen_out' + repo_tag() + '_corp') and x != 'gen_out' + tag),
+                      key=lambda x: os.path.getmtime(os.path.join(core.CACHE, x)))
+        for x in olds[:-1]:          # keep the most recent other one
+            shutil.rmtree(os.path.join(core.CACHE, x), ignore_errors=True)
+            shutil.rmtree(os.path.join(core.CACHE, x.replace('gen_out', 'target_gen')), ignore_errors=True)
     out = os.path.join(core.CACHE, 'gen_out' + tag)
     target = os.path.join(core.CACHE, 'target_gen' + tag)
     gb.out_dir = out
